@@ -153,6 +153,25 @@ pub fn c14(out: &mut dyn Write, tier: &str, rng: &mut Rng, st: &mut Stats) {
                 }
             }
             let bdd = if exotic { copy(&env2, &bdd0, &rename) } else { bdd0 };
+            // every seventh diagram: the same structure with every LEAF in an allocation of its own (what a conversion
+            // between symbol types, or a diagram written by hand, looks like); decision nodes stay one allocation each
+            let bdd = if i % 7 == 5 {
+                fn fresh(b: &Rc<BDD<rsbdd::NamedSymbol>>, memo: &mut HashMap<usize, Rc<BDD<rsbdd::NamedSymbol>>>) -> Rc<BDD<rsbdd::NamedSymbol>> {
+                    match b.as_ref() {
+                        BDD::True => Rc::new(BDD::True),
+                        BDD::False => Rc::new(BDD::False),
+                        BDD::Choice(t, v, f) => {
+                            let key = Rc::as_ptr(b) as usize;
+                            if let Some(r) = memo.get(&key) { return Rc::clone(r); }
+                            let r = Rc::new(BDD::Choice(fresh(t, memo), v.clone(), fresh(f, memo)));
+                            memo.insert(key, Rc::clone(&r));
+                            r
+                        }
+                    }
+                }
+                st.hit("bdd.leaves-in-separate-allocations");
+                fresh(&bdd, &mut HashMap::new())
+            } else { bdd };
             let mut pn = PNames { map: HashMap::new() };
             let mut dump = String::new();
             pdump(&mut pn, &bdd, &mut dump);
